@@ -276,15 +276,16 @@ class C13(Prop):
         if impl == "ERR":
             return "the control file is rejected"
         if impl == "PANIC":
-            return None if bad else "Control::wrap_and_sort PANIC on well-formed relationship fields"
-        if bad:
-            return "Control::wrap_and_sort accepted an unparsable relationship field"
+            # since /repo c9b03b8 an unparsable relationship field is left as it is: a panic is always a failure
+            return "Control::wrap_and_sort PANIC"
         r = rec_fields(impl)
         t1 = unhex(r["t1"])
         if r.get("t2") != r["t1"]:
             return "a second Control::wrap_and_sort changes the text"
         lines = t1.split("\n")
         for name, enc in encs:
+            if enc == "!":
+                continue      # an unparsable value: kept as written (C07's clause), nothing to compare here
             f = G.decode(enc.replace("+", " "))
             want = W.expected_text(f)
             got = [l for l in lines if l.startswith(name + ":")]
